@@ -802,6 +802,13 @@ class Function(Ring):
             else:
                 args.append(fa)
 
+        # when an in-place write is re-evaluated (Fout is the recorded node),
+        # save the values it is going to overwrite *now*: what was saved while
+        # recording belongs to the recording point
+        if Fout is not None and setitem is None and is_set(Fout.setitem):
+            sl = Fout.setitem[0]
+            setitem = (sl, operator.getitem(args[0], sl).copy())
+
         # STEP 2: call the function
         # print 'func=',func
         # print 'args=',args
